@@ -85,12 +85,19 @@ def mutate(tree, rng, pool, step):
     """one public mutation of a typed tree that was queried before (a result memoised by an earlier query must not survive it)"""
     nodes = list(tree)
     if not nodes:
-        return "none"
+        # ... and populated again
+        a_ = tree.add(pool.objs[2], kind="kind-a")
+        a_.add(pool.objs[3], kind="kind-b")
+        tree.add(pool.objs[4], kind="kind-a-x", before=True)
+        return "rebuild"
     n = rng.choice(nodes)
-    kind = ["remove", "sort", "move", "add", "remove_children", "set_data", "remove_keep", "copy_node", "copy_tree", "copy_new_kind"][step % 10]
+    kind = ["remove", "sort", "move", "add", "remove_children", "set_data", "remove_keep", "copy_node", "copy_tree", "copy_new_kind", "clear_rebuild"][step % 11]
     try:
         if kind == "remove":
             n.remove()
+        elif kind == "clear_rebuild":
+            # the tree is emptied (queried while it is empty by the next pass) ...
+            tree.clear()
         elif kind == "remove_keep":
             # the children move up one level: kinds that their new parent never held before
             cands = [x for x in nodes if x.children]
@@ -137,6 +144,10 @@ def mut_case(ctx, out, spec, seed, steps, k=0):
     log = []
     check_tree(ctx, out, {"mut": dict(spec=spec, seed=seed, steps=0, k=k, log=[])}, "mut", tree=tree)
     for step in range(steps):
+        if not list(tree):
+            log.append(mutate(tree, rng, ctx.pool, k + step))      # an emptied tree is populated again first
+            check_tree(ctx, out, {"mut": dict(spec=spec, seed=seed, steps=step + 1, k=k, log=list(log))}, "mut", tree=tree)
+            continue
         log.append(mutate(tree, rng, ctx.pool, k + step))
         check_tree(ctx, out, {"mut": dict(spec=spec, seed=seed, steps=step + 1, k=k, log=list(log))}, "mut", tree=tree)
 
